@@ -413,13 +413,16 @@ def k_z80(name, harnesses, tier="quick"):
 
 K_AYM = dict(name="K-aym", package="aym",
              harnesses=["tone_period_and_tick", "noise_period_and_tick", "envelope_shapes", "envelope_period",
-                        "register_decode_and_mixer", "mixer_level_index", "dac_tables_monotone", "stereo_modes"],
+                        "register_decode_and_mixer", "mixer_level_index", "mixer_gating_and_levels", "envelope_restart",
+                        "dac_tables_monotone", "stereo_modes"],
              functions={"tone_period_and_tick": ["AymPrecise::set_tone", "AymPrecise::update_tone"],
                         "noise_period_and_tick": ["AymPrecise::set_noise", "AymPrecise::update_noise"],
                         "envelope_shapes": ["AymPrecise::set_envelope_shape", "update_envelope", "slide_up", "slide_down", "hold_top", "hold_bottom", "reset_segment", "ENVELOPES", "ENVELOPE_RESET_TO_MAX"],
                         "envelope_period": ["AymPrecise::set_envelope", "update_envelope"],
                         "register_decode_and_mixer": ["AymPrecise::write_register", "set_mixer", "set_volume"],
                         "mixer_level_index": ["AymPrecise::update_mixer (level index, assert!(out < 32))"],
+                        "mixer_gating_and_levels": ["AymPrecise::update_mixer (gating, level selection, panning sums)"],
+                        "envelope_restart": ["AymPrecise::set_envelope_shape", "reset_segment"],
                         "dac_tables_monotone": ["AY_DAC_TABLE", "YM_DAC_TABLE"],
                         "stereo_modes": ["AymBackend::new (pan table)", "AymPrecise::set_pan"]},
              assumptions=["harness module is spliced as a child of aym::backends::precise (overlay, cfg(kani)) to reach private generator functions",
